@@ -241,8 +241,9 @@ impl Engine for DagEngine {
 
   fn generate(&self, rng: &mut Rng, config: &str, _prop: &str) -> DagScn {
     let hash_seed = rng.next();
-    let max_live = rng.range(3, 12) as usize;
-    let nops = rng.range(5, if config == "long" { 120 } else { 60 }) as usize;
+    // `wide`: up to 30 live nodes and 240 operations (large affected regions in the Pearce-Kelly re-ordering).
+    let max_live = if config == "wide" { rng.range(10, 30) as usize } else { rng.range(3, 12) as usize };
+    let nops = rng.range(5, if config == "wide" { 240 } else if config == "long" { 120 } else { 60 }) as usize;
     // Swarm weights.
     let w_node = rng.range(1, 4);
     let w_edge = rng.range(4, 12);
